@@ -42,6 +42,67 @@ func C16(c *core.Ctx) {
 		}
 	}
 	c.Floor("R1", len(parser), 3, "functions of flowdesc.go")
+	// the fields of the rule are separated by one OR MORE blanks (`s <- ' '+`): the whole input is cut into fields by
+	// a splitter that collapses runs of white space — strings.Split on a single blank yields empty fields for a run,
+	// and a well-formed rule with two blanks somewhere is refused
+	if pf := fnOf(c, "R1", pkgFwd, "", "ParseFlowDesc"); pf != nil {
+		nCut := 0
+		// the input may be handed to an own helper first (one level): that helper's parameter stands for it
+		inputs := map[ssa.Value]bool{ssa.Value(core.Param(pf, 0)): true}
+		cands := append([]*ssa.Function{}, core.WithAnon(pf)...)
+		core.Instrs(pf, func(in ssa.Instruction) {
+			if ci, ok := in.(ssa.CallInstruction); ok {
+				if h := core.StaticFn(ci); h != nil && p.IsOwnFn(h) && h.Blocks != nil && h != pf {
+					for i, a := range ci.Common().Args {
+						if core.Unwrap(a) == ssa.Value(core.Param(pf, 0)) && i < len(h.Params) {
+							inputs[h.Params[i]] = true
+							cands = append(cands, h)
+						}
+					}
+				}
+			}
+		})
+		for _, fn := range cands {
+			core.Instrs(fn, func(in ssa.Instruction) {
+				cl, ok := in.(*ssa.Call)
+				if !ok {
+					return
+				}
+				f := core.Callee(cl)
+				if f == nil || f.Pkg() == nil || (f.Pkg().Path() != "strings" && f.Pkg().Path() != "regexp") || len(cl.Call.Args) == 0 {
+					return
+				}
+				if sl, isSl := cl.Type().Underlying().(*types.Slice); !isSl || !types.Identical(sl.Elem(), types.Typ[types.String]) {
+					return
+				}
+				// is the argument the whole input (the parameter, possibly trimmed)?
+				arg := cl.Call.Args[0]
+				if f.Pkg().Path() == "regexp" && len(cl.Call.Args) > 1 {
+					arg = cl.Call.Args[1]
+				}
+				whole := false
+				for i := 0; i < 6; i++ {
+					arg = core.Unwrap(arg)
+					if inputs[arg] {
+						whole = true
+						break
+					}
+					c2, isCall := arg.(*ssa.Call)
+					if !isCall || core.Callee(c2) == nil || core.Callee(c2).Pkg() == nil || core.Callee(c2).Pkg().Path() != "strings" || len(c2.Call.Args) == 0 {
+						break
+					}
+					arg = c2.Call.Args[0]
+				}
+				if !whole {
+					return
+				}
+				nCut++
+				c.Check("R1", "fields-by-blank-runs", cl.Pos(), f.Pkg().Path() == "strings" && (f.Name() == "Fields" || f.Name() == "FieldsFunc"),
+					"the rule is cut into its fields by strings.Fields (any run of blanks separates two fields); "+f.Pkg().Name()+"."+f.Name()+" does not collapse runs")
+			})
+		}
+		c.Floor("R1", nCut, 1, "places where the flow description is cut into fields")
+	}
 	// ... and every other own function that takes the flow-description string apart (reads
 	// SDFFilterFields.FlowDescription and indexes / slices): "no fault on any string" holds for them too
 	inParser := map[*ssa.Function]bool{}
